@@ -66,6 +66,10 @@ Proof. exact out_bounded. Qed.
 Theorem C18_backlog_bounded : forall (mx bound high low : N) (ops : list wop), Forall (op_ok mx) ops -> let w := wrun (winit bound high low) ops in backlog w <= high + mx + grown ops + N.of_nat (length (w_chans w)) * (N.max 1 bound * mx).
 Proof. exact backlog_bounded. Qed.
 
+(* PROGRESS: a channel event that finds the buffer at or below the mark hands over at least the channel's oldest message. With C18_next_poll_reports (a channel holding a message is reported by the next poll while channels are polled), C18_throttled_has_data and C18_resume_rearms (while they are not, there is data to write, and the first tail at or below the low-water mark polls them again): every accepted message moves towards the wire as long as the transport goes on taking data *)
+Theorem C18_event_progress : forall (w : wstate) (ch : N) (c : chan) (m : N) (rest : list N), In ch (w_pending w) -> alookup ch (w_chans w) = Some c -> k_mail c = m :: rest -> w_out w <= w_high w -> exists (c' : chan) (more : list N), alookup ch (w_chans (snd (wevent w ch))) = Some c' /\ rest = more ++ k_mail c' /\ w_out (snd (wevent w ch)) = w_out w + m + sum more.
+Proof. exact event_progress. Qed.
+
 (* LOSES NOTHING: a channel event hands a prefix of the mailbox to the buffer, whole and in order; the rest stays in the mailbox *)
 Theorem C18_drain_in_order : forall (fuel : nat) (high : N) (c : chan) (out : N), (length (k_mail c) < fuel)%nat -> let '(_, c', out', _) := drain fuel high c out in exists taken : list N, k_mail c = taken ++ k_mail c' /\ out' = out + sum taken.
 Proof. exact drain_in_order. Qed.
@@ -108,6 +112,7 @@ Check C18_resume_rearms : forall (mx : N) (w : wstate) (ch : N) (c : chan), J mx
 Check C18_event_bounded : forall (mx : N) (w : wstate) (ch : N), J mx w -> w_out (snd (wevent w ch)) <= N.max (w_out w) (w_high w + mx).
 Check C18_out_bounded : forall (mx bound high low : N) (ops : list wop), Forall (op_ok mx) ops -> w_out (wrun (winit bound high low) ops) <= high + mx + grown ops.
 Check C18_backlog_bounded : forall (mx bound high low : N) (ops : list wop), Forall (op_ok mx) ops -> let w := wrun (winit bound high low) ops in backlog w <= high + mx + grown ops + N.of_nat (length (w_chans w)) * (N.max 1 bound * mx).
+Check C18_event_progress : forall (w : wstate) (ch : N) (c : chan) (m : N) (rest : list N), In ch (w_pending w) -> alookup ch (w_chans w) = Some c -> k_mail c = m :: rest -> w_out w <= w_high w -> exists (c' : chan) (more : list N), alookup ch (w_chans (snd (wevent w ch))) = Some c' /\ rest = more ++ k_mail c' /\ w_out (snd (wevent w ch)) = w_out w + m + sum more.
 Check C18_drain_in_order : forall (fuel : nat) (high : N) (c : chan) (out : N), (length (k_mail c) < fuel)%nat -> let '(_, c', out', _) := drain fuel high c out in exists taken : list N, k_mail c = taken ++ k_mail c' /\ out' = out + sum taken.
 
 Print Assumptions C18_throttle_spec.
@@ -126,6 +131,7 @@ Print Assumptions C18_resume_rearms.
 Print Assumptions C18_event_bounded.
 Print Assumptions C18_out_bounded.
 Print Assumptions C18_backlog_bounded.
+Print Assumptions C18_event_progress.
 Print Assumptions C18_drain_in_order.
 Print Assumptions C18_example.
 Print Assumptions C18_example_wake.
